@@ -2,6 +2,7 @@
 From Coq Require Import Reals ZArith QArith Qreals String List Bool.
 From Coquelicot Require Import Coquelicot.
 From PT Require Import Str Dec Py IExpr ActEval ActEvalSound Act Activation C14Proofs C14Sweep C14Table.
+From PT.Gen Require ActivationDat.
 Import ListNotations.
 Open Scope R_scope.
 
@@ -165,6 +166,10 @@ Print Assumptions C14_natural_is_abundance_sum.
 Theorem C14_table_loads : exists rows, the_rows = Some rows /\ length rows = 513%nat.
 Proof. exact rows_loaded. Qed.
 Print Assumptions C14_table_loads.
+
+Theorem C14_columns_as_labelled : columns_match_header ActivationDat.act_column_names ActivationDat.activation_dat = true.
+Proof. exact columns_as_labelled. Qed.
+Print Assumptions C14_columns_as_labelled.
 
 Theorem C14_table_rows_physical : forall rows, the_rows = Some rows -> forall r, In r rows -> row_ok r = true.
 Proof. exact rows_all_ok. Qed.
